@@ -458,7 +458,7 @@ func Run(r *vf.Run) {
 	r.Assume("run files are written with a mirror of lintcmd.lintResult (gob matches fields by name); the merge strategy stored per diagnostic is the one documented on the check's lint.Analyzer in the working tree")
 	root := r.Scratch()
 
-	total := r.Pick(300, 3000)
+	total := r.Pick(300, 1500)
 	if v, err := strconv.Atoi(os.Getenv("VERIF_N")); err == nil && v > 0 {
 		total = v // development aid; recorded in evidence as evaluations
 	}
